@@ -24,6 +24,7 @@ QUICK = [c for c in c04.QUICK if c[2] is None] + [
     ('names_collide', dict(T=3, names=('1x', 'x')), None, 'B'),
     ('plant_win_empty', dict(T=3, fuel=True, win=(5, 7)), None, 'B'),
     ('windows_gap', dict(T=4), None, 'B'),
+    ('plant_dict_costs', dict(T=3, fuel=True, start_costs='dict'), None, 'B'),
     ('orderbook_all_outside', dict(T=3, orders=((-3, -1, 1.0), (5, 7, 1.0))), None, 'B'),
 ]
 THOROUGH = QUICK + [c for c in c04.THOROUGH if c[2] is None and c not in c04.QUICK] + [
@@ -31,7 +32,7 @@ THOROUGH = QUICK + [c for c in c04.THOROUGH if c[2] is None and c not in c04.QUI
     ('contract_storage_mip', dict(T=3, storage_kw=dict(no_simult_in_out=True)), None, 'B'),
     ('contract_storage_msd', dict(T=4, storage_kw=dict(max_store_duration=2)), None, 'B'),
 ]
-SHAPE_OF = dict(c04.SHAPE_OF, names_collide='names', names_collide_T12='names', plant_win_empty='plant',
+SHAPE_OF = dict(c04.SHAPE_OF, plant_dict_costs='plant', names_collide='names', names_collide_T12='names', plant_win_empty='plant',
                 orderbook_all_outside='orderbook', contract_storage_mip='contract_storage',
                 contract_storage_msd='contract_storage')
 BOUNDS = dict(quick='shapes %s, T<=8 (12 for the colliding-names shape)' % [c[0] for c in QUICK],
